@@ -1865,3 +1865,13 @@ func insideStringLit(s string, i int) bool {
 	}
 	return in
 }
+
+
+// usesAlways: does the clause (after macro expansion) contain an always(...) accumulator?
+func (P *Program) usesAlways(cl *Clause, fn *ssa.Function) bool {
+	text := cl.Text
+	if ct := P.contractFor(fn); ct != nil {
+		text = expandMacros(text, pkgMacros[ct.relpkg])
+	}
+	return strings.Contains(text, "always(")
+}
